@@ -20,7 +20,7 @@ EXPLANATION = (
     'handler derives state from the rebound field; (d) FieldUpdate payload '
     'def-use; (e) completeness of the ancestor walk.  Exactly-once / ordering '
     'for arbitrary batches is not decided.')
-FLOORS = {'C09.a': 10, 'C09.b': 2, 'C09.c': 2, 'C09.d': 1, 'C09.e': 1, 'C09.f': 4, 'C09.g': 2, 'C09.h': 3, 'C09.i': 5}
+FLOORS = {'C09.a': 10, 'C09.b': 2, 'C09.c': 2, 'C09.d': 1, 'C09.e': 1, 'C09.f': 4, 'C09.g': 2, 'C09.h': 3, 'C09.i': 5, 'C09.j': 3}
 FILES = c08.FILES + ['pyglove/ext/evolution/recombinators.py',
                      'pyglove/ext/evolution/mutators.py',
                      'pyglove/core/geno/base.py', 'pyglove/core/geno/categorical.py']
@@ -709,6 +709,63 @@ def rule_i(ctx):
     raise AnalysisError(f'only {n} mutators with a flag-guarded cache reset found')
 
 
+def rule_j(ctx):
+  """(1) Library code never switches notifications ON: inside a caller's
+  `notify_on_change(False)` scope "none is delivered", so every
+  notify_on_change(...) in the library passes the literal False (a computed
+  argument such as `not skip_notification` is True for the default None).
+  (2) Receivers of one dispatch are told apart by identity: the per-receiver
+  buckets of _notify_field_updates are keyed by id(<receiver>) - a path or the
+  receiver itself (containers compare and hash by content) merges a detached
+  node with the root.  (3) An un-notified rebind resets the caches of the
+  nodes that actually changed: the reset receives the updates that _sym_rebind
+  returned (the changed fields can be deep below self)."""
+  idx = ctx.index
+  bad = []
+  n = 0
+  for f in idx.all_funcs():
+    if f.module.relpath.endswith('flags.py'):
+      continue
+    for c in A.calls_in(f.node):
+      if (A.call_name(c) or '').split('.')[-1] == 'notify_on_change':
+        n += 1
+        arg = c.args[0] if c.args else (c.keywords[0].value if c.keywords else None)
+        if arg is None or A.unparse(arg) != 'False':
+          bad.append(f'{f.module.relpath}:{c.lineno} `{A.unparse(c, 60)}`')
+  ctx.ob('C09.j', 'library#notify_on_change-only-off', n >= 3 and not bad,
+         'library code only ever switches change notification off (it never re-enables it inside a caller\'s disabled scope)',
+         'pyglove/core/symbolic/flags.py:128', '; '.join(bad) or f'only {n} uses found')
+  f = idx.func('pyglove.core.symbolic.base.Symbolic._notify_field_updates')
+  # the bucket dict: a local dict whose values are (receiver, updates) pairs
+  problems = []
+  stores = []
+  for h in [f.node] + [x for x in ast.walk(f.node) if isinstance(x, ast.FunctionDef) and x is not f.node]:
+    for st in A.walk_local(h):
+      if isinstance(st, ast.Assign) and isinstance(st.targets[0], ast.Subscript) and isinstance(st.value, ast.Tuple) \
+          and len(st.value.elts) == 2:
+        stores.append((h, st))
+  if not stores:
+    problems.append('per-receiver bucket store not found')
+  for h, st in stores:
+    key = st.targets[0].slice
+    srcs = [key]
+    if isinstance(key, ast.Name):
+      srcs = [v for _, v in D.defs_of(h, key.id) if v is not None]
+    if not srcs or not all(isinstance(v, ast.Call) and A.call_name(v) == 'id' for v in srcs):
+      problems.append(f'line {st.lineno}: buckets are keyed by `{A.unparse(srcs[0], 40) if srcs else "?"}`, not by id(receiver)')
+  ctx.ob('C09.j', f.fq + '#receiver-identity', not problems,
+         'the receivers of one dispatch are told apart by identity (id), not by path or content', f.loc, '; '.join(problems))
+  f = idx.func('pyglove.core.symbolic.base.Symbolic.sym_rebind')
+  upd = {nm for st in ast.walk(f.node) if isinstance(st, ast.Assign) and isinstance(st.value, ast.Call)
+         and (A.call_name(st.value) or '') == 'self._sym_rebind' for nm in A.assigned_names(st.targets[0])}
+  resets = [c for c in A.calls_in(f.node) if (A.call_name(c) or '') == 'self._sym_reset_content_caches']
+  ok = bool(resets) and all(any(isinstance(a, ast.Name) and a.id in upd for a in list(c.args) + [k.value for k in c.keywords])
+                            for c in resets)
+  ctx.ob('C09.j', f.fq + '#reset-where-it-changed', ok,
+         'an un-notified rebind resets the caches from the changed nodes upward (the reset is given the updates)', f.loc,
+         'the reset starts at self: nodes between self and a deeper changed field keep their stale facts')
+
+
 def run(ctx):
   ctx.consult(*FILES)
   rule_a(ctx)
@@ -720,4 +777,5 @@ def run(ctx):
   rule_g(ctx)
   rule_h(ctx)
   rule_i(ctx)
+  rule_j(ctx)
   ctx.assume('handlers of user classes outside the repository are out of scope')
